@@ -344,7 +344,12 @@ bool wellFormed(const AnalyserModelPtr &am, const ModelPtr &model, std::map<Vari
                 return fail("C05.wf|dependency-foreign", "equation " + std::to_string(i) + " depends on something that is not an equation of the model");
             }
             if (d == e) {
-                return fail("C05.wf|dependency-self|" + AnalyserEquation::typeAsString(e->type()), "equation " + std::to_string(i) + " depends on itself");
+                // localisation token of a known finding: what the equation computes is initialised through another variable
+                bool elsewhere = false;
+                for (const auto &v : e->variables()) {
+                    elsewhere = elsewhere || (v != nullptr && v->initialisingVariable() != nullptr && v->initialisingVariable() != v->variable());
+                }
+                return fail("C05.wf|dependency-self|" + AnalyserEquation::typeAsString(e->type()) + (elsewhere ? "|initialised-elsewhere" : ""), "equation " + std::to_string(i) + " depends on itself");
             }
         }
         if (e->ast() == nullptr) {
